@@ -103,6 +103,7 @@ std::string propRebuild(const FmmCase& c0, const std::string& prop){
     std::vector<gf::Val> accumulated(c.pos.size(), gf::zero());
     long nbRebuilds = 0, nbExecutes = 0; bool shapeChanged = false;
 
+    std::unique_ptr<Algo> algoPtr;
     auto execute = [&]() -> std::string {
         ctx.reset(); ctx.multAddr.clear(); ctx.localAddr.clear();
         ctx.leafOf[0] = &mt.leafOf; ctx.rows[0] = &in.rows;
@@ -111,10 +112,14 @@ std::string propRebuild(const FmmCase& c0, const std::string& prop){
             std::vector<uint32_t> s2 = c.sched; if(!s2.empty()) s2.push_back(uint32_t(nbExecutes) * 2246822519u);
             msched::global().reset(c.threads, s2);
         }
-        if(EXEC == 1 && c.threadsCtor > 0){ const auto keep = msched::global().decisions; msched::global().nbThreads = c.threadsCtor; (void)keep; }
-        Algo algo(config, Kernel(&ctx), long(lstop));
+        // ONE algorithm object for the whole history (the README loop: move, rebuild, execute again with the same object): state an
+        // executor keeps between executions (caches keyed by group bounds, per-worker kernels) meets the rebuilt tree
+        if(!algoPtr){
+            if(EXEC == 1 && c.threadsCtor > 0){ const auto keep = msched::global().decisions; msched::global().nbThreads = c.threadsCtor; (void)keep; }
+            algoPtr.reset(new Algo(config, Kernel(&ctx), long(lstop)));
+        }
         msched::global().nbThreads = std::max(1, c.threads);
-        algo.execute(*tree);
+        algoPtr->execute(*tree);
         nbExecutes += 1;
         rm::Expect ex(ctx.P, mt, Periodic, 0);
         std::map<Coord, gf::Val> perLeaf;
